@@ -326,7 +326,7 @@ Section RoundTrip.
         * intros p m'. rewrite lookup_set. destruct (path_eqb rel p); [discriminate|apply Hl3].
     - (* directory *)
       simpl in Hwf, Hmo, Hbe.
-      apply andb_true_iff in Hwf as [Hnd Hwf]. apply andb_true_iff in Hmo as [Hm Hmo].
+      apply andb_true_iff in Hwf as [Hnd Hwf]. apply andb_true_iff in Hnd as [Hnd Hnok]. apply andb_true_iff in Hmo as [Hm Hmo].
       assert (Hrel : fs_lookup f rel = None) by (rewrite <- (app_nil_r rel); apply Hfresh).
       destruct (parent_is_dir_ok f rel Hne Hpre) as [mp Hpar].
       set (f2 := fs_set f rel (NDir (mid_dir_mode umask m))).
@@ -371,7 +371,7 @@ Section RoundTrip.
       forall p, fs_lookup f' p = expected_mid_top umask preserve T p.
   Proof.
     intros T Hwf Hmo Hbe Hls0. subst T. simpl in Hwf, Hmo, Hbe.
-    apply andb_true_iff in Hwf as [Hnd Hwf]. apply andb_true_iff in Hmo as [Hm Hmo].
+    apply andb_true_iff in Hwf as [Hnd Hwf]. apply andb_true_iff in Hnd as [Hnd Hnok]. apply andb_true_iff in Hmo as [Hm Hmo].
     set (f0 := fs_init umask).
     set (md := N.ldiff 511 umask).
     assert (Hstep : extract_entry pre umask preserve f0 (mkEntry (pre ++ []) EDir m (hdr_time repro mt)) = Ok f0).
